@@ -7,7 +7,7 @@
    number and text; `doc_status` says whether flattening reached the end (Complete), an input
    that cannot be opened (Missing), or the nesting bound (Deep).  `parse_aux fuel fs m top` is
    the model of pybtex.auxfile.parse_file(top) with errors.report_error in mode m. *)
-From Pybtex Require Import Base.Prelude Base.PyChar Base.PyStr Model.Aux Spec.Aux Proofs.Aux.
+From Pybtex Require Import Base.Prelude Base.PyChar Base.PyStr Model.Aux Spec.Aux Proofs.Aux Proofs.AuxLex.
 
 (* the citations are exactly the keys of the \citation lines, in reading order, comma lists
    expanded, repeats kept, every other line ignored, inputs read in place *)
@@ -119,6 +119,36 @@ Theorem never_crashes : forall fuel fs m top, parse_aux fuel fs m top <> CrashO.
 Proof. exact never_crashes_l. Qed.
 Print Assumptions never_crashes.
 
+(* which lines are command lines: command_re.match(line) succeeds exactly on a backslash, one
+   of the four command names, an opening brace, a value without line feed, and a closing brace
+   that is the last one before the end of the line; everything after it is ignored *)
+Theorem match_command_spec : forall line c v,
+  match_command line = Some (c, v) <->
+  exists rest, line = c_bslash :: cmd_text c ++ c_lbrace :: v ++ c_rbrace :: rest /\
+               ~ In c_nl v /\ ~ In c_rbrace (upto_nl rest).
+Proof. exact match_command_spec_l. Qed.
+Print Assumptions match_command_spec.
+
+(* the lines of a file, glued back, are its content with \r\n and \r read as \n; every line is
+   non-empty, free of \r, has no \n except as its last character, and ends in \n unless it is the last *)
+Theorem lines_of_concat : forall s, concat (lines_of s) = translate_nl s false.
+Proof. exact lines_of_concat_l. Qed.
+Print Assumptions lines_of_concat.
+Theorem lines_of_shape : forall s pre l post,
+  lines_of s = pre ++ l :: post ->
+  l <> [] /\ ~ In 13%N l /\ ~ In 10%N (removelast l) /\ (post <> [] -> exists b, l = b ++ [10%N]).
+Proof. exact lines_of_shape_l. Qed.
+Print Assumptions lines_of_shape.
+
+(* nesting fuel beyond what the document needs changes nothing *)
+Theorem fuel_irrelevant : forall fuel fs m top,
+  doc_status fuel fs top <> Deep ->
+  forall k, doc_visits (k + fuel) fs top = doc_visits fuel fs top /\
+            doc_status (k + fuel) fs top = doc_status fuel fs top /\
+            same_reading (parse_aux (k + fuel) fs m top) (parse_aux fuel fs m top).
+Proof. exact fuel_irrelevant_l. Qed.
+Print Assumptions fuel_irrelevant.
+
 (* ---- non-vacuity: a document with a nested file, a second \bibstyle and \bibdata after the
    return from it, and a key cited in two spellings across the file boundary *)
 Example ex_read :
@@ -150,3 +180,11 @@ Example ex_nothing_to_report :
   reports false false [] (doc_visits 3 fs (s2l "t.aux")) = [] /\
   exists a, parse_aux 3 fs Strict (s2l "t.aux") = Ret a /\ a_cits a = [s2l "a"; s2l "a"].
 Proof. vm_compute. split; [reflexivity|]. eexists. split; reflexivity. Qed.
+
+Example ex_match :
+  match_command (s2l "\citation{a}b}c{" ++ [c_nl]) = Some (CCitation, s2l "a}b") /\
+  match_command (s2l " \citation{a}") = None /\ match_command (s2l "\@input{x.aux}") = Some (CInput, s2l "x.aux").
+Proof. vm_compute. auto. Qed.
+Example ex_lines :
+  lines_of (s2l "a" ++ [13; 10] ++ s2l "b" ++ [13] ++ [10] ++ s2l "c")%N = [s2l "a" ++ [10]; s2l "b" ++ [10]; s2l "c"]%N.
+Proof. vm_compute. reflexivity. Qed.
